@@ -5,7 +5,8 @@ import Bng.Proof.AcctRetry
   invariant says where a further Stop of a session could still come from — the session in memory, its
   session file, a Stop record in the retry map or in pending.json — and that once a Stop of the session
   has been acknowledged none of them is left, except those a frame in progress (of the API thread or of the
-  processor thread) is about to remove.  Both threads run: every interleaving of `tick` and `ptick`.
+  processor thread) is about to remove.  All threads run: every interleaving of `tick`, `ptick` and `itick`
+  (the interim goroutine only ever sends or queues a record that is not a Stop and writes nothing durable: `nd_itick`).
 -/
 namespace Bng.Acct
 open Bng AMap
@@ -347,8 +348,6 @@ theorem noExcuse_stopPersist (k : Nat) : noExcuse (some (.stopPersist k)) := by
   refine ⟨fun s => by simp [cleans], fun s => by simp [exA, drainedBy, pendingDrain], fun s => by simp [covers]⟩
 theorem noExcuse_stopSend (k : Nat) : noExcuse (some (.stopSend k)) := by
   refine ⟨fun s => by simp [cleans], fun s => by simp [exA, drainedBy, pendingDrain], fun s => by simp [covers]⟩
-theorem noExcuse_intSend (k : Nat) : noExcuse (some (.intSend k)) := by
-  refine ⟨fun s => by simp [cleans], fun s => by simp [exA, drainedBy, pendingDrain], fun s => by simp [covers]⟩
 
 theorem quiet_none : quiet none := by simp [quiet, isRec, recInfo, pendingDrain]
 theorem quiet_startSend (k : Nat) : quiet (some (.startSend k)) := by simp [quiet, isRec, recInfo, pendingDrain]
@@ -359,7 +358,6 @@ theorem quiet_stopDelete (k : Nat) (b : Bool) : quiet (some (.stopDelete k b)) :
   simp [quiet, isRec, recInfo, pendingDrain]
 theorem quiet_stopRemove (k : Nat) (b : Bool) : quiet (some (.stopRemove k b)) := by
   simp [quiet, isRec, recInfo, pendingDrain]
-theorem quiet_intSend (k : Nat) : quiet (some (.intSend k)) := by simp [quiet, isRec, recInfo, pendingDrain]
 
 /-- `nd_genA` for a step that leaves a frame without excuses and enters a frame outside recovery/drain -/
 theorem nd_plain {σ σ' : State} (h : ND σ) (hne : noExcuse σ.vol.pc) (hq : quiet σ'.vol.pc)
@@ -833,35 +831,114 @@ theorem nd_tickStopRemove {σ : State} (h : ND σ) {k : Nat} {b : Bool}
   · intro l hl; simp [setPc, pendingDrain] at hl
   · intro hr; exact absurd hr quiet_none.1
 
-theorem nd_tickIntSend {σ : State} (h : ND σ) {k : Nat} (heq : σ.vol.pc = some (.intSend k)) (a : Ans) :
-    ND (tickIntSend σ k a) := by
-  have hne : noExcuse σ.vol.pc := by rw [heq]; exact noExcuse_intSend k
-  unfold tickIntSend
+/-- a step of a background goroutine that leaves both program counters, the files and pending.json alone, adds at
+    most records that are not Stops and acknowledges no Stop -/
+theorem nd_keep {σ σ' : State} (h : ND σ) (hpc : σ'.vol.pc = σ.vol.pc) (hppc : σ'.vol.ppc = σ.vol.ppc)
+    (ht : σ'.tainted = σ.tainted) (hAck : σ'.ackedStops = σ.ackedStops) (hDup : σ'.dup = σ.dup)
+    (hA : ∀ s, AS σ' s → AS σ s) (hS : σ.vol.sessions = [] → σ'.vol.sessions = [])
+    (hF : σ'.dur.files = σ.dur.files)
+    (hP : ∀ p ∈ σ'.vol.pending, p ∈ σ.vol.pending ∨ p.req.kind ≠ .stop)
+    (hQ : σ'.dur.pfile = σ.dur.pfile) : ND σ' := by
+  apply nd_sub h hppc ht hAck
+  · intro s _ hd; rw [hDup] at hd; exact hd
+  · exact hA
+  · intro s hs; unfold FS at hs ⊢; rw [← hF]; exact hs
+  · intro p hp
+    rcases hP p hp with h1 | h1
+    · exact Or.inl ⟨p, h1, rfl, rfl⟩
+    · exact Or.inr h1
+  · exact Or.inl hQ
+  · intro s _ _ hc; left; rw [hpc]; exact hc
+  · intro s hc; left; rw [hpc]; exact hc
+  · intro s hc; left; rw [hpc]; exact hc
+  · intro hr; rw [hpc] at hr; exact hS (h.r1 hr)
+  · intro recd cur hr
+    rw [hpc] at hr
+    obtain ⟨h1, h2⟩ := h.r2 recd cur hr
+    refine ⟨?_, ?_⟩
+    · intro x hx hf; apply h1 x hx; unfold FS at hf ⊢; rw [← hF]; exact hf
+    · intro p hp s hst
+      rcases hP p hp with h3 | h3
+      · exact h2 p h3 s hst
+      · exact absurd hst.1 h3
+  · intro l hl; rw [hpc] at hl; exact h.dr l hl
+  · intro hr; rw [hpc] at hr; exact hr
+
+/-- the interim goroutine's step: it sends (and may queue) a record that is not a Stop -/
+theorem nd_itick {σ : State} (h : ND σ) (a : Ans) : ND (itick σ a) := by
+  unfold itick
   split
-  · exact nd_idle h hne none quiet_none
-  · rename_i x hx
-    dsimp only
+  · rename_i k ident i o _
     have hn := fun b => dup_accept_nonstop (σ := σ)
-      (r := { kind := .interim, sid := k, ident := x.ident, cause := 0, inOct := (counters σ k).1,
-              outOct := (counters σ k).2 }) b (by simp)
+      (r := { kind := .interim, sid := k, ident := ident, cause := 0, inOct := i, outOct := o }) b (by simp)
+    unfold tickIntSend
+    dsimp only
     split
-    · apply nd_sub_plain h hne
-      · exact quiet_none
+    · split
+      · apply nd_keep h
+        · rfl
+        · rfl
+        · rfl
+        · exact (hn true).2
+        · exact (hn true).1
+        · exact fun s hs => hs
+        · exact fun e => e
+        · rfl
+        · exact fun p hp => Or.inl hp
+        · rfl
+      · rename_i x hx
+        apply nd_keep h
+        · rfl
+        · rfl
+        · rfl
+        · exact (hn true).2
+        · exact (hn true).1
+        · intro s hs
+          unfold AS at hs ⊢
+          simp only [setIpc, accept, lookup_insert] at hs
+          split at hs
+          · rename_i e
+            have hx' : lookup σ.vol.sessions k = some x := hx
+            subst e
+            rw [hx']; rfl
+          · exact hs
+        · intro e
+          have hx' : lookup σ.vol.sessions k = some x := hx
+          rw [e] at hx'; simp [lookup] at hx'
+        · rfl
+        · exact fun p hp => Or.inl hp
+        · rfl
+    · apply nd_keep h
       · rfl
       · rfl
-      · exact (hn true).2
-      · intro s _ hd; exact (hn true).1 ▸ hd
-      · intro s hs
-        unfold AS at hs ⊢
-        simp only [setPc, accept, lookup_insert] at hs
-        split at hs
-        · rename_i e; subst e; rw [hx]; rfl
-        · exact hs
+      · rfl
+      · rfl
+      · rfl
       · exact fun s hs => hs
-      · intro p hp; exact Or.inl ⟨p, hp, rfl, rfl⟩
-      · exact Or.inl rfl
-    · exact nd_send_nonstop h hne _ .down (by simp) none quiet_none
-    · exact nd_send_nonstop h hne _ .lost (by simp) none quiet_none
+      · exact fun e => e
+      · rfl
+      · intro p hp
+        simp only [setIpc, enqueue, List.mem_cons] at hp
+        rcases hp with e | e
+        · right; subst e; simp
+        · exact Or.inl e
+      · rfl
+    · apply nd_keep h
+      · rfl
+      · rfl
+      · rfl
+      · exact (hn false).2
+      · exact (hn false).1
+      · exact fun s hs => hs
+      · exact fun e => e
+      · rfl
+      · intro p hp
+        simp only [setIpc, enqueue, List.mem_cons] at hp
+        rcases hp with e | e
+        · right; subst e; simp
+        · exact Or.inl e
+      · rfl
+  · exact h
 
 
 /-! ### the shutdown drain -/
@@ -1326,7 +1403,7 @@ theorem nd_tick {σ : State} (h : ND σ) (a : Ans) : ND (tick σ a) := by
   · rename_i heq; exact nd_tickStopSend h heq a
   · rename_i heq; exact nd_tickStopDelete h heq
   · rename_i heq; exact nd_tickStopRemove h heq
-  · rename_i heq; exact nd_tickIntSend h heq a
+  · exact h
   · exact h
   · exact h
   · rename_i heq; exact nd_tickDrainSend h heq a
@@ -1599,14 +1676,7 @@ theorem four_tick {σ : State} (h : P σ) (a : Ans) : P (tick σ a) := by
     · exact hsame (send σ _ a false) _ (by rfl) (four_send P hsame hacc h _ a false)
   · exact hsame σ _ (by rfl) h
   · unfold tickStopRemove; split <;> exact hsame σ _ (by rfl) h
-  · unfold tickIntSend
-    split
-    · exact hsame σ _ (by rfl) h
-    · dsimp only
-      split
-      · exact hsame (accept σ _ true) _ (by rfl) (hacc _ _ true h)
-      · exact hsame σ _ (by rfl) h
-      · exact hsame (accept σ _ false) _ (by rfl) (hacc _ _ false h)
+  · exact h
   · exact h
   · exact h
   · rename_i k rest _
@@ -1658,15 +1728,32 @@ theorem four_ptick {σ : State} (h : P σ) (a : Ans) : P (ptick σ a) := by
   · exact hsame σ _ (by rfl) h
   · exact h
 
+theorem four_itick {σ : State} (h : P σ) (a : Ans) : P (itick σ a) := by
+  unfold itick
+  split
+  · rename_i k ident i o _
+    have h1 := fun b => hacc σ { kind := .interim, sid := k, ident := ident, cause := 0, inOct := i, outOct := o } b h
+    unfold tickIntSend
+    dsimp only
+    split
+    · split
+      · exact hsame _ _ (by rfl) (h1 true)
+      · exact hsame _ _ (by rfl) (h1 true)
+    · exact hsame σ _ (by rfl) h
+    · exact hsame _ _ (by rfl) (h1 false)
+  · exact h
+
 theorem four_step {σ : State} (h : P σ) (op : Op) : P (step σ op) := by
   by_cases ht : ∃ a, op = .tick a
   · obtain ⟨a, e⟩ := ht; subst e; exact four_tick P hsame hacc h a
   · by_cases hp : ∃ a, op = .ptick a
     · obtain ⟨a, e⟩ := hp; subst e; exact four_ptick P hsame hacc h a
-    · apply hsame σ _ _ h
-      exact step_ghost_simple Four (fun _ _ => rfl) (fun _ _ => rfl) (fun _ _ => rfl) (fun _ _ => rfl)
-        (fun _ _ => rfl) (fun _ _ => rfl) (fun _ _ => rfl) (fun _ _ _ => rfl) (fun _ _ => rfl) (fun _ => rfl)
-        (fun _ _ => rfl) (fun _ _ _ => rfl) σ op (fun a e => ht ⟨a, e⟩) (fun a e => hp ⟨a, e⟩)
+    · by_cases hi : ∃ a, op = .itick a
+      · obtain ⟨a, e⟩ := hi; subst e; exact four_itick P hsame hacc h a
+      · apply hsame σ _ _ h
+        exact step_ghost_simple Four (fun _ _ => rfl) (fun _ _ => rfl) (fun _ _ => rfl) (fun _ _ => rfl) (fun _ _ => rfl) (fun _ _ => rfl)
+          (fun _ _ => rfl) (fun _ _ => rfl) (fun _ _ => rfl) (fun _ _ _ => rfl) (fun _ _ => rfl) (fun _ => rfl)
+          (fun _ _ => rfl) (fun _ _ _ => rfl) σ op (fun a e => ht ⟨a, e⟩) (fun a e => hp ⟨a, e⟩) (fun a e => hi ⟨a, e⟩)
 
 end FourFields
 
@@ -1692,7 +1779,7 @@ theorem tick_up (σ : State) (a : Ans) : (tick σ a).up = σ.up ∨ (tick σ a).
   · left; unfold tickStopSend send; repeat' (first | rfl | split)
   · exact Or.inl rfl
   · left; unfold tickStopRemove; repeat' (first | rfl | split)
-  · left; unfold tickIntSend; repeat' (first | rfl | split)
+  · exact Or.inl rfl
   · exact Or.inl rfl
   · exact Or.inl rfl
   · left; unfold tickDrainSend; repeat' (first | rfl | split)
@@ -1727,6 +1814,13 @@ theorem idleDown_step {σ : State} (h : IdleDown σ) (op : Op) : IdleDown (step 
     have hpc := h (by rw [← e]; exact hup)
     simp only [step]
     rw [ptick_idle a hpc.2]; exact hpc
+  | itick a =>
+    intro hup
+    have e : (itick σ a).up = σ.up :=
+      itick_ghost State.up (fun _ _ => rfl) (fun _ _ _ => rfl) (fun _ _ _ => rfl) (fun _ _ => rfl) σ a
+    have hpc := h (by rw [← e]; exact hup)
+    simp only [step]
+    rw [itick_pc, itick_ppc]; exact hpc
   | crash => intro _; exact ⟨rfl, rfl⟩
   | crashTorn => intro _; exact ⟨rfl, rfl⟩
   | ctr s i o => exact h
@@ -1749,17 +1843,20 @@ theorem idleDown_step {σ : State} (h : IdleDown σ) (op : Op) : IdleDown (step 
       · unfold callStart at hup
         split at hup <;> simp_all [setPc, begin]
   | interim s =>
+    have keep : ∀ {τ : State}, τ.up = σ.up → τ.vol.pc = σ.vol.pc → τ.vol.ppc = σ.vol.ppc → IdleDown τ := by
+      intro τ e1 e2 e3 hup
+      rw [e2, e3]; exact h (by rw [← e1]; exact hup)
     simp only [step]
     split
-    · exact h
-    · rename_i hu
-      intro hup
-      split at hup
-      · simp_all
-      · unfold callInterim at hup
-        split at hup
-        · simp_all [begin]
-        · split at hup <;> simp_all [setPc, begin]
+    · exact keep rfl rfl rfl
+    · split
+      · exact keep rfl rfl rfl
+      · unfold callInterim
+        split
+        · exact keep rfl rfl rfl
+        · split
+          · exact keep rfl rfl rfl
+          · exact keep rfl rfl rfl
   | stop s cause =>
     simp only [step]
     split
@@ -1904,6 +2001,7 @@ theorem nd_step {σ : State} (h : ND σ) (hr : Reg σ) (hk : AK σ) (hi : IdleDo
   cases op with
   | tick a => exact nd_tick h a
   | ptick a => exact nd_ptick h a
+  | itick a => exact nd_itick h a
   | ctr s i o => exact nd_same h rfl rfl rfl rfl rfl
   | crash => exact nd_crash hr hk
   | crashTorn => exact nd_crash (reg_torn hr) (ak_torn hk)
@@ -2004,15 +2102,22 @@ theorem nd_step {σ : State} (h : ND σ) (hr : Reg σ) (hk : AK σ) (hi : IdleDo
     · exact nd_same h rfl rfl rfl rfl rfl
     · split
       · exact nd_same h rfl rfl rfl rfl rfl
-      · rename_i hup hbusy
-        have hpc : σ.vol.pc = none := pc_none_of_not_isSome hbusy
-        have hne : noExcuse σ.vol.pc := by rw [hpc]; exact noExcuse_none
-        unfold callInterim
+      · unfold callInterim
         split
         · exact nd_same h rfl rfl rfl rfl rfl
         · split
           · exact nd_same h rfl rfl rfl rfl rfl
-          · exact nd_idle (σ := begin σ .ok) (nd_same h rfl rfl rfl rfl rfl) hne _ (quiet_intSend s)
+          · apply nd_keep h
+            · rfl
+            · rfl
+            · rfl
+            · rfl
+            · rfl
+            · exact fun s hs => hs
+            · exact fun e => e
+            · rfl
+            · exact fun p hp => Or.inl hp
+            · rfl
   | stop s cause =>
     simp only [step]
     split
@@ -2159,6 +2264,7 @@ theorem registered_step_eq (σ : State) (op : Op) :
         | start s i => exact absurd ⟨s, i, rfl⟩ hs
         | tick a => exact absurd ⟨a, rfl⟩ ht
         | ptick a => exact absurd ⟨a, rfl⟩ hp
+        | itick a => exact itick_registered σ a
         | crash => rfl
         | crashTorn => exact tornEffect_registered σ
         | ctr s i o => rfl
@@ -2256,7 +2362,7 @@ theorem tainted_step (σ : State) (op : Op) (s : Nat) (h : s ∈ (step σ op).ta
         · unfold tickStopSend send at h; revert h; repeat' (first | exact id | split)
         · exact h
         · unfold tickStopRemove at h; revert h; repeat' (first | exact id | split)
-        · unfold tickIntSend at h; revert h; repeat' (first | exact id | split)
+        · exact h
         · exact h
         · exact h
         · unfold tickDrainSend at h; revert h; repeat' (first | exact id | split)
@@ -2283,6 +2389,8 @@ theorem tainted_step (σ : State) (op : Op) (s : Nat) (h : s ∈ (step σ op).ta
             | crashTorn => exact absurd rfl hc2
             | tick a => exact absurd ⟨a, rfl⟩ ht
             | ptick a => exact absurd ⟨a, rfl⟩ hp
+            | itick a =>
+              exact itick_ghost State.tainted (fun _ _ => rfl) (fun _ _ _ => rfl) (fun _ _ _ => rfl) (fun _ _ => rfl) σ a
             | ctr s i o => rfl
             | restart order =>
               simp only [step]
